@@ -150,7 +150,10 @@ def build_object(ws, cls_name, parent=None, rng=None, name=None, n=None, base=0,
     elif cls_name == "GeoImage":
         kw.update(image=np.arange(4 * 5 * 3, dtype="uint8").reshape(4, 5, 3))
     kw.update(extra)
-    return cls.create(ws, **kw)
+    obj = cls.create(ws, **kw)
+    if cls_name == "GeoImage":
+        _ = obj.vertices  # the library materialises (and stores) default corners on first access
+    return obj
 
 
 def n_for(obj, association):
